@@ -10,6 +10,8 @@ package gabi
 import (
 	"encoding/json"
 	"fmt"
+	"os"
+	"path/filepath"
 	"strings"
 	"sync"
 	"testing"
@@ -382,8 +384,61 @@ func TestVF_C08_Hostile(t *testing.T) {
 	}
 }
 
-// ---- native fuzzing (thorough tier). Seeds are generated deterministically so that corpus
-// entries keep their meaning across runs.
+// ---- native fuzzing (thorough tier). Seed documents are written once by a preparation test
+// (TestVF_C08_WriteFuzzSeeds) into $VF_FUZZSEEDS and loaded by the coordinator and by every
+// worker process, so that all processes agree on the session tuples; keys are deterministic.
+type c08SeedFile struct {
+	Name     string   `json:"name"`
+	Doc      []byte   `json:"doc"`
+	IsMsg    bool     `json:"is_msg"`
+	KeyKinds []string `json:"key_kinds"`
+	KeyIdx   []int    `json:"key_idx"`
+	Ctx      string   `json:"ctx"`
+	Nonce    string   `json:"nonce"`
+	Issig    bool     `json:"issig"`
+	Canon    string   `json:"canon"`
+}
+
+func c08FuzzShapes() ([][]c02Member, [][]c02Member) {
+	return [][]c02Member{
+			{{"disc", 0}}, {{"disc+range", 0}}, {{"disc+range3", 0}}, {{"disc+nonrev", 0}}, {{"disc+nonrev+range", 0}},
+			{{"issue", 0}}, {{"issue+blind", 0}}, {{"disc+nonrev", 0}, {"issue+blind", 1}}, {{"disc+range", 0}, {"disc", 1}, {"issue", 0}},
+		}, [][]c02Member{{{"issue", 0}}, {{"issue+blind", 0}}}
+}
+
+func TestVF_C08_WriteFuzzSeeds(t *testing.T) {
+	dir := os.Getenv("VF_FUZZSEEDS")
+	if dir == "" {
+		t.Skip("VF_FUZZSEEDS not set")
+	}
+	seedLib(t, 20260925)
+	lists, msgs := c08FuzzShapes()
+	keys := []*vfk.KeyPair{getKey("toyrev", 0), getKey("toyrev", 1)}
+	var out []c08SeedFile
+	add := func(sh []c02Member, i int, issig, asMsg bool) {
+		s, err := c08Build(keys, sh, bi(123456789), bi(1), bi(int64(1000+i)), issig, asMsg)
+		if err != nil {
+			t.Fatal(err)
+		}
+		f := c08SeedFile{Name: s.name, Doc: s.doc, IsMsg: asMsg, Ctx: s.ctx.String(), Nonce: s.nonce.String(), Issig: s.issig, Canon: s.canon}
+		for _, m := range sh {
+			f.KeyKinds = append(f.KeyKinds, "toyrev")
+			f.KeyIdx = append(f.KeyIdx, m.key)
+		}
+		out = append(out, f)
+	}
+	for i, sh := range lists {
+		add(sh, i, i%2 == 1, false)
+	}
+	for i, sh := range msgs {
+		add(sh, 100+i, false, true)
+	}
+	b, _ := json.Marshal(out)
+	if err := os.WriteFile(filepath.Join(dir, "c08seeds.json"), b, 0o644); err != nil {
+		t.Fatal(err)
+	}
+}
+
 var (
 	c08FuzzOnce  sync.Once
 	c08FuzzSeeds []*c08Seed
@@ -391,26 +446,27 @@ var (
 
 func c08FuzzSetup(t testing.TB) []*c08Seed {
 	c08FuzzOnce.Do(func() {
-		shapes := [][]c02Member{
-			{{"disc", 0}}, {{"disc+range", 0}}, {{"disc+range3", 0}}, {{"disc+nonrev", 0}}, {{"disc+nonrev+range", 0}},
-			{{"issue", 0}}, {{"issue+blind", 0}}, {{"disc+nonrev", 0}, {"issue+blind", 1}}, {{"disc+range", 0}, {"disc", 1}, {"issue", 0}},
+		dir := os.Getenv("VF_FUZZSEEDS")
+		b, err := os.ReadFile(filepath.Join(dir, "c08seeds.json"))
+		if err != nil {
+			return
 		}
-		keys := []*vfk.KeyPair{getKey("toyrev", 0), getKey("toyrev", 1)}
-		for i, sh := range shapes {
-			s, err := c08Build(keys, sh, bi(123456789), bi(1), bi(int64(1000+i)), i%2 == 1, false)
-			if err != nil {
-				panic(err)
-			}
-			c08FuzzSeeds = append(c08FuzzSeeds, s)
+		var files []c08SeedFile
+		if err := json.Unmarshal(b, &files); err != nil {
+			panic(err)
 		}
-		for i, sh := range [][]c02Member{{{"issue", 0}}, {{"issue+blind", 0}}} {
-			s, err := c08Build(keys, sh, bi(123456789), bi(1), bi(int64(2000+i)), false, true)
-			if err != nil {
-				panic(err)
+		for _, f := range files {
+			s := &c08Seed{name: f.Name, doc: f.Doc, isMsg: f.IsMsg, ctx: vfk.S2big(f.Ctx), nonce: vfk.S2big(f.Nonce), issig: f.Issig, canon: f.Canon}
+			for i := range f.KeyKinds {
+				s.pks = append(s.pks, getKey(f.KeyKinds[i], f.KeyIdx[i]).Pk)
 			}
+			s.nBases = len(s.pks[0].R)
 			c08FuzzSeeds = append(c08FuzzSeeds, s)
 		}
 	})
+	if len(c08FuzzSeeds) == 0 {
+		t.Skip("no fuzz seeds (VF_FUZZSEEDS not prepared)")
+	}
 	return c08FuzzSeeds
 }
 
